@@ -5,7 +5,7 @@ import json, os, subprocess
 ROOT = os.path.dirname(os.path.dirname(os.path.abspath(__file__)))
 PROPS = [json.loads(l)["id"] for l in open(os.path.join(ROOT, "properties.jsonl"))]
 
-HOOK_COMMITS = ["d458cd0"]   # filled as hooks are added to /repo
+HOOK_COMMITS = ["d458cd0", "e0f9fe4"]   # filled as hooks are added to /repo
 
 CHECKS = {
     "C03": dict(
@@ -197,6 +197,21 @@ CHECKS["C09"] = dict(
     note="Hash-map seed space, file discovery order and scheduling are sampled by repetition, not enumerated; permutations of module "
          "registration order are not covered. The comparison itself is byte equality.",
     technique="TLC enumeration of generator-reuse histories + replay on the real CodeGenerator; repeated builds")
+
+CHECKS["C17"] = dict(
+    category="model_checking",
+    text="RcRace.tla models non-atomic strong counts (clone / drop = read then write) for workers with given reach sets; TLC explores every "
+         "interleaving: with pairwise disjoint reach the counts stay exact, with one shared allocation it produces the corrupting schedule. "
+         "The reach sets are observed, not assumed: a cfg-guarded hook hands the Vec<Test> to the harness right before into_par_iter; the "
+         "harness walks every Rc reachable from every unit / property / benchmark program, records owners and strong counts, and the "
+         "project passes iff no allocation is reachable from two tests, none is also held outside the tests (compiler caches, checked "
+         "modules) and no unit test still carries its assertion. The same projects are then checked under 1/2/16 rayon threads and must "
+         "give identical result sequences.",
+    design_ref="DESIGN.md section 6 C17, section 4.9",
+    note="Projects: an authored one (48 tests over the same module constants, hoisted functions and types, property tests with `fail` and "
+         "`fail once`) and the dependency-free acceptance projects. The Fuzzer's Rc<tipo::Type> (only read after the parallel section) is "
+         "not walked. Interleavings are explored on the model, not by racing real threads.",
+    technique="TLC over all interleavings of non-atomic refcount updates, instantiated with the ownership graph observed through a hook")
 
 NOT_BUILT = "not built yet (machinery under construction, see DESIGN.md section 10)"
 
